@@ -125,6 +125,52 @@ add("C19",
     "Larger key sets are scripted, not exhaustive. libc trusted; allocation failure not injected.",
     "DESIGN.md 2/C19", engine="enumerator")
 
+add("C07",
+    "exhaustive input enumeration: every byte stream of a finite wire-format space, in every segmentation of a stated set and every "
+    "ending, fed by a raw peer to a real XCM endpoint (ASan+UBSan) and compared with a reference frame decoder; a forked child per batch "
+    "turns any crash into a finding naming the input",
+    "A raw peer feeds an XCM endpoint (tcp, tls, btcp, btls; as server and as client) every stream of <= 3 frames with announced lengths from "
+    "{0,1,2,65535,65536,0x7fffffff,0x80000000,0xffffffff}, payload present / truncated at every offset / followed by garbage, in ALL 2^(n-1) "
+    "segmentations for n <= 10-12 bytes (single cuts and 1-byte trickle beyond), ending in close or silence; for TLS the same plaintext through "
+    "a harness-side OpenSSL peer, the ciphertext of a record cut at every offset, raw injection below TLS, garbage instead of the handshake, and "
+    "every byte offset of every handshake flight x a mutation set. Oracle: no crash/abort/sanitizer report; heap growth <= one frame; delivered "
+    "messages == reference decoder; never length 0 or > 65535; illegal length => EPROTO, sticky. quick 0.63 M cases, thorough 4.2 M.",
+    "Payload bytes are patterned (data independence). TLS flights come from one deterministic OpenSSL peer. After a handshake mutation both "
+    "'nothing delivered' and 'everything as the reference decoder says' are accepted. No environment deviations below the endpoint (the input "
+    "segmentation IS the enumeration).", "DESIGN.md 2/C07", engine="enumerator")
+add("C12",
+    "in-process exhaustive input enumeration (4.8e8 library calls quick / 5.8e9 thorough), exact-ended heap buffers under ASan plus canaries, "
+    "differential three-valued reference codec written from xcm.h",
+    "Exhaustive enumeration of the stated input space of xcm_addr_make_*, xcm_addr_parse_*, xcm_addr_is_valid, xcm_addr_parse_proto and the "
+    "compat wrappers on the real code: 13 make functions x {IPv4, IPv6, DNS name} x all 65536 ports x every capacity 0..len+2 with each result "
+    "parsed back through 19 parser entry points; 29 hosts x width-boundary ports x all capacities; UX/UXF names around 107/108; port field over "
+    "-2..70000 and wrap-around values; ~10700 structured strings around every limit incl. every byte value 1-255 in every field; every string of "
+    "length <= 5/4 (quick) .. 7/6 (thorough) over a 15-letter alphabet after each transport prefix and with none.",
+    "Three-valued oracle: must-accept / must-reject / either (leading zeros, label-level DNS syntax, non-LDH bytes other than blanks, controls, "
+    "brackets and ':', empty UX names, upper-case transport names are 'either'). Reads outside buffers are judged in the asan build only; quick "
+    "runs the 65536-port sweep and the longest strings in the plain build.", "DESIGN.md 2/C12", engine="enumerator")
+add("C13", EXPL.replace("all schedules and environment-deviation patterns", "world tables (selected by free choice points) x all event orders and withheld completions"),
+    "World tables are enumerated by free choice points: answer lists of length <= 3 (quick) / <= 4 (thorough) over {v4a,v4b,v6a,v6b} x per-address "
+    "{accepts, refuses, silent} x resolver {now, late, fails, fails late, silent} x dns.algorithm {single, sequential, happy_eyeballs, unset} x "
+    "xcm.local_addr {none, v4/v6 literal with port 0 or fixed port} x tcp.connect_timeout {3 s, 0.5 s} x dns.timeout x which call reports the "
+    "outcome, plus the 32-entry cap and xcm_server on unknown/failing/late/silent names; below each table every order of connect completions, DNS "
+    "arrival and timer expiries and every withheld completion within D (quick D<=1: 27,643 tables / 343k executions; thorough D<=2..4: 164k tables / "
+    "3.1 M executions) on btcp, with covering subsets on tcp/tls/btls/utls. Oracle connect-alg: which addresses are tried in which order, outcome and "
+    "errno, ENOENT/ETIMEDOUT, every bind() carries exactly the configured local address, no attempt outlives its outcome.",
+    "The 200 ms IPv4 head start is INFO only. An accepting address may end in ETIMEDOUT when its answer was withheld for >= tcp.connect_timeout; in "
+    "those executions only the invariants are demanded. Fixed local port exercised on btcp only. Resolver = stub of the c-ares entry points; virtual clock.",
+    "DESIGN.md 2/C13")
+add("C14", EXPL.replace("all schedules and environment-deviation patterns", "all control sessions (free choice points) x targets x attribute-set sizes, concurrent sessions x schedules x EAGAIN answers"),
+    "Control sessions of <= 2 (quick) / <= 3 (thorough) items over a 15-item alphabet (well-formed get-attr for short/long/sensitive/unknown/list names, "
+    "get-all, get-all first, wrong-size datagrams, unknown type, unterminated name, disconnects, never reading the reply), raw and through libxcmctl, "
+    "against 28 targets (server, connecting and accepted socket of ux, uxf, tcp, tls; small and large attribute sets: 107-character names, by-value "
+    "credentials of 1.4-7 KB, peer certificates with 0/5/25/70 SANs), 1-3 concurrent sessions interleaved with the application's traffic under every "
+    "schedule and EAGAIN pattern within D, real ctl.c/xcmc.c under ASan. Oracle: no crash; the application's message oracle still holds; no reply "
+    "contains private-key material; every reply equals the in-process xcm_attr_get/xcm_attr_get_all answer; control files vanish on close.",
+    "The library services control descriptors every 64th/256th data-path call: the application task has a pump macro-step. get-all may omit a value "
+    "that does not fit the 512-byte field. Data-path deviations limited to EAGAIN. xcmc's blocking recv yields to the scheduler (one seam).",
+    "DESIGN.md 2/C14")
+
 
 def main():
     man = dict(
